@@ -33,6 +33,8 @@ structure Stats where
   maxWidth : Nat := 0
   samePsCommits : Nat := 0      -- commits overwritten inside one ps
   lineEvents : Nat := 0         -- clock / reset changes compared with their exact time
+  identCodes : Nat := 0
+  maxIdentCodes : Nat := 0
   tvLines : Nat := 0
   tvGroups : Nat := 0
   tvChecks : Nat := 0
@@ -200,6 +202,27 @@ def checkCase (c : Case) (st0 : Stats) : IO Stats := do
   let bodyStart := (c.vcd.findIdx? (· == "$enddefinitions $end")).getD c.vcd.size
   let hdrLines := (c.vcd.extract 0 bodyStart).toList.map String.toList
   let items := (c.vcd.extract bodyStart c.vcd.size).map fun l => parseBody l.toList
+  -- identifier codes: no two declared variables share one, every value change belongs to exactly one declared variable
+  let mut declared : Std.HashMap String (List String) := {}
+  for l in c.vcd.extract 0 bodyStart do
+    match l.splitOn " " with
+    | "$var" :: _ :: _ :: code :: label :: _ => declared := declared.insert code (label :: declared.getD code [])
+    | _ => pure ()
+  st := { st with identCodes := st.identCodes + declared.size, maxIdentCodes := max st.maxIdentCodes declared.size }
+  let mut collisionReported := false
+  for (code, labels) in declared.toList do
+    if labels.length > 1 && !collisionReported then
+      collisionReported := true
+      fail "PROPFAIL" s!"kind=vcd-identifier-collision code=[{code}] is declared for {labels.length} variables: {labels.reverse} (of {declared.size} declared codes)"
+      st := { st with propfails := st.propfails + 1 }
+  for it in items do
+    match it with
+    | .change code _ =>
+      if !declared.contains (String.ofList code) && !collisionReported then
+        collisionReported := true
+        fail "PROPFAIL" s!"kind=vcd-identifier-collision a value change uses code=[{String.ofList code}], which no $var line declares"
+        st := { st with propfails := st.propfails + 1 }
+    | _ => pure ()
   -- declared widths as the reader sees them
   for i in [0:cfg.sigs.length] do
     let w := declaredWidth hdrLines (codes[i]!)
@@ -530,4 +553,4 @@ def main : IO Unit := do
     c := r.1
     st := r.2
   let sel := ",".intercalate (st.selHist.toList.map fun (k, v) => s!"\"{k}\":{v}")
-  IO.println s!"SUMMARY \{\"cases\":{st.cases},\"ops\":{st.ops},\"diffs\":{st.diffs},\"propfails\":{st.propfails},\"signals\":{st.signals},\"commits\":{st.commits},\"ticks\":{st.ticks},\"vcd_lines\":{st.vcdLines},\"value_comparisons\":{st.valueCmps},\"decodeLines_queries\":{st.modelQueries},\"sampled_bits\":{st.sampledBits},\"undefined_bits\":{st.undefBits},\"scalar_signals\":{st.scalarSigs},\"vector_signals\":{st.vectorSigs},\"hidden_signals\":{st.hiddenSigs},\"memory_words\":{st.memSigs},\"signals_wider_than_64\":{st.wideSigs},\"signals_in_nested_scopes\":{st.nestedSigs},\"max_width\":{st.maxWidth},\"commits_sharing_a_ps\":{st.samePsCommits},\"clock_reset_changes_compared\":{st.lineEvents},\"tv_lines\":{st.tvLines},\"tv_groups\":{st.tvGroups},\"tv_checks\":{st.tvChecks},\"tv_sets\":{st.tvSets},\"tv_rsts\":{st.tvRsts},\"tv_sets_in_during_phase\":{st.tvDuringSets},\"tv_groups_in_empty_interval\":{st.tvEmptyIntervals},\"tv_groups_with_carried_remainder\":{st.tvNonzeroRemainders},\"replayed_statements\":{st.replayed},\"replay_failures\":{st.replayFails},\"precondition_violations\":{st.precondViolations},\"selection\":\{{sel}}}"
+  IO.println s!"SUMMARY \{\"cases\":{st.cases},\"ops\":{st.ops},\"diffs\":{st.diffs},\"propfails\":{st.propfails},\"signals\":{st.signals},\"commits\":{st.commits},\"ticks\":{st.ticks},\"vcd_lines\":{st.vcdLines},\"value_comparisons\":{st.valueCmps},\"decodeLines_queries\":{st.modelQueries},\"sampled_bits\":{st.sampledBits},\"undefined_bits\":{st.undefBits},\"scalar_signals\":{st.scalarSigs},\"vector_signals\":{st.vectorSigs},\"hidden_signals\":{st.hiddenSigs},\"memory_words\":{st.memSigs},\"signals_wider_than_64\":{st.wideSigs},\"signals_in_nested_scopes\":{st.nestedSigs},\"max_width\":{st.maxWidth},\"commits_sharing_a_ps\":{st.samePsCommits},\"clock_reset_changes_compared\":{st.lineEvents},\"identifier_codes_checked\":{st.identCodes},\"max_identifier_codes_in_a_file\":{st.maxIdentCodes},\"tv_lines\":{st.tvLines},\"tv_groups\":{st.tvGroups},\"tv_checks\":{st.tvChecks},\"tv_sets\":{st.tvSets},\"tv_rsts\":{st.tvRsts},\"tv_sets_in_during_phase\":{st.tvDuringSets},\"tv_groups_in_empty_interval\":{st.tvEmptyIntervals},\"tv_groups_with_carried_remainder\":{st.tvNonzeroRemainders},\"replayed_statements\":{st.replayed},\"replay_failures\":{st.replayFails},\"precondition_violations\":{st.precondViolations},\"selection\":\{{sel}}}"
